@@ -152,6 +152,8 @@ def render_tab(sess, verbose=False):
             if f["k"] != "use":
                 shapes.add(it["cls"])
                 shapes.add("rejected:%s:%s:%s" % (f["k"], f["n"] or "+".join(f["ds"]), f["t"]))
+                if it["lib"]:
+                    shapes.add("rejected-form-first-mentions-library-type")
                 if it["cls"] == "redeclaration-other-type":
                     shapes.add("redeclares-defined-name")
         else:
@@ -174,3 +176,80 @@ def tab_sig(sess):
         else:
             out.append("B%s%s%s%s" % (f["k"][0], f["n"] or "+".join(f["ds"]), f["t"], f["ill"][:1] + f["ans"]))
     return "o%s:" % "".join("%x" % d for d in sess["order"]) + "".join(out)
+
+
+# ---------------------------------------------------------------------------------------------------------
+# ReplReader: the grouping of input lines into steps
+
+def _codes(text):
+    return [ord(c) for c in text]
+
+
+# the pieces of text the forms of ReplReader.tla are made of (the module sees the character codes only)
+READER_PIECES = {
+    "mark": replhist.MARK,                                # what every printed line starts with (followed by the form number)
+    "po": 'print << "' + replhist.MARK,                   # ... form number, literal content ...
+    "pcl": '" << newline;',
+    "pcp": '" << newline',                                # inside a pile: no semicolon
+    "pbo": 'print << "' + replhist.BADMARK,
+    "pbc": '" << zz9q << newline;',
+    "badstmt": 'print << "' + replhist.BADMARK + '" << zz9q << newline;',
+    "cmo": " -- ", "cml": "-- ", "note": "a note",
+    "par1": '" << (1@SI +', "par2": "      2@SI) << newline;", "three": "3",
+    "hid": "h", "pid": "p", "defb": "(a: SI): SI == {", "defp": "(a: SI): SI ==", "ind": "        ", "reta": "a",
+    "call": "(1@SI);", "endc": "-- end",
+    "kid": "k_", "kdef": ": SI == 3@SI;", "kuse1": ' " << k_', "kuse2": " << newline;",
+    "nlo1": ' " << 1@SI +_', "nlo2": "      2@SI << newline;",
+    "nlia": " ab_", "nlib": "cd",
+    "trailop": 'print << "' + replhist.BADMARK + '" << 1@SI +', "trailasg": "zq9: SI :=",
+    "surplus1": 'print << "' + replhist.BADMARK + '" << zz9q) << newline;',
+    "surplus2": 'print << "' + replhist.BADMARK + '" << zz9q} << newline;',
+    "dir1": "#assert Aq9", "dir2": "#int verbose off",
+}
+CONTENT_ATOMS = ["a", " ", "(", ")", "{", "}", ";", "--", "==", '_"', "__", "_(", "#"]
+COMMENT_ATOMS = ["a", '"', "(", ")", "{", "}", "_", ";", "=="]
+ESCID_CHARS = ["(", ")", "{", "}", '"', ";", "_"]
+
+
+def reader_config(seed, tier):
+    return {"pc": {k: _codes(v) for k, v in READER_PIECES.items()},
+            "ca": [_codes(a) for a in CONTENT_ATOMS], "cm": [_codes(a) for a in COMMENT_ATOMS],
+            "escid": [ord(c) for c in ESCID_CHARS],
+            "badlines": ["trailop", "trailasg", "surplus1", "surplus2"], "dirs": ["dir1", "dir2"],
+            "nlit": 2 if tier == "quick" else 3, "ncmt": 2 if tier == "quick" else 3,
+            "pack": 12, "rot": seed % 9973}
+
+
+def _text(codes):
+    return "".join(chr(c) for c in codes)
+
+
+def item_name(sp):
+    return sp["t"] + (":" + sp["x"] if sp["x"] else "") + ("[" + _text(sp["c"]) + "]" if sp["c"] else "") + \
+        ("--[" + _text(sp["m"]) + "]" if sp["h"] else "")
+
+
+def render_reader(sess):
+    """sess: one exported record of ReplReader.tla.  Returns (text, expected tokens, ends (line numbers in the text at which a
+    step must end), name)."""
+    lines = []
+    for l in sess["lines"]:
+        if not l or l[-1] != 10 or 10 in l[:-1]:
+            raise ValueError("a line of ReplReader.tla does not end in exactly one newline")
+        lines.append(_text(l[:-1]))
+    toks = []
+    for e in sess["exps"]:
+        if e["k"] == "print":
+            toks += [("M", _text(e["t"])), ("T",)]
+        elif e["k"] == "rej":
+            toks.append(("G",))
+        elif e["k"] == "quiet":
+            toks.append(("T",))
+        elif e["k"] != "none":
+            raise ValueError(e["k"])
+    text = session_text(lines)
+    npre = text.count("\n") - len(lines) - 1
+    name = "+".join(item_name(sp) for sp in sess["items"])
+    if len(name) > 120:
+        name = "packed%d:%s..." % (sess["id"], name[:80])
+    return text, toks, npre, name
